@@ -1222,6 +1222,31 @@ public:
   FilteredDirectoryContentsTask(StringRef path, StringList&& filters)
       : path(path), filters(std::move(filters))
       , directoryValue(BuildValue::makeInvalid()) {}
+
+  static bool isResultValid(BuildEngine& engine, StringRef path,
+                            StringRef patterns, const BuildValue& value) {
+    // The stat record of the directory (a dependency of this rule) need not
+    // change when an entry appears or disappears: in checksum-only mode it
+    // carries no timestamp, and a timestamp can be put back. Compare the
+    // filtered listing itself, as the unfiltered rule does. Every other kind
+    // of value is a function of the stat record alone.
+    if (!value.isFilteredDirectoryContents())
+      return true;
+
+    BinaryDecoder decoder(patterns);
+    StringList filters(decoder);
+    std::vector<std::string> cur;
+    (void)getFilteredContents(path, filters, cur);
+
+    auto prev = value.getDirectoryContents();
+    if (cur.size() != prev.size())
+      return false;
+    for (size_t i = 0; i != cur.size(); ++i) {
+      if (prev[i] != cur[i])
+        return false;
+    }
+    return true;
+  }
 };
 
 
@@ -1853,7 +1878,11 @@ std::unique_ptr<Rule> BuildSystemEngineDelegate::lookupRule(const KeyType& keyDa
         BinaryDecoder decoder(patterns);
         return new FilteredDirectoryContentsTask(path, StringList(decoder));
       },
-      /*IsValid=*/ nullptr
+      /*IsValid=*/ [path, patterns](BuildEngine& engine, const Rule& rule,
+          const ValueType& value) mutable -> bool {
+        return FilteredDirectoryContentsTask::isResultValid(
+            engine, path, patterns, BuildValue::fromData(value));
+      }
     ));
   }
 
